@@ -52,6 +52,9 @@ def tt_scalar(E, s):
             a = s['ival']
         elif s['skind'] == 'pyfloat':
             a = float(s['fval'])          # a concrete python float (a double that float32 cannot represent)
+        elif s['skind'] == 'npscalar':
+            import numpy as _rnp
+            a = getattr(_rnp, s['nptype'])(complex(*s['cval']) if isinstance(s['cval'], list) else s['cval'])       # a concrete numpy scalar
         else:
             a = E.scalar('a', s['skind'], s['dtype'])
         if s.get('nonzero'):
@@ -78,7 +81,7 @@ def tt_scalar(E, s):
     E.eq('value', dense(E, z.cores), ref.reshape(list(xd.shape)))
     E.true('shape', list(z.N) == list(s['N']))
     E.true('boundary_ranks', z.R[0] == 1 and z.R[-1] == 1)
-    if s['skind'] == 'complex' and not s['dtype'].startswith('complex'):
+    if (s['skind'] == 'complex' or (s['skind'] == 'npscalar' and s['nptype'].startswith('complex'))) and not s['dtype'].startswith('complex'):
         # a complex scalar on a real operand: the value clause forces a complex result for a != 0; the property fixes no dtype for a == 0
         E.true('dtype_consistent', len({E.dtname(c) for c in z.cores}) == 1)
     else:
